@@ -189,6 +189,12 @@ def call_lib(case, n_clusters="case", cutoff="case", tri="case", entry="case"):
     # cluster app sets on rank 0, what pytest --log-level=DEBUG sets) must give the same clustering as INFO
     LOGGER.setLevel(logging.DEBUG if case.get("debug_log") else logging.INFO)
     LOGGER.propagate = False
+    # ... and a user who wants debug output switches it on for the whole package (logging.getLogger('enspara')), so every
+    # module's logger that has no level of its own - the metric helpers' included - answers isEnabledFor(DEBUG) with yes
+    PKG = logging.getLogger("enspara")
+    old_pkg = PKG.level
+    if case.get("debug_log"):
+        PKG.setLevel(logging.DEBUG)
     try:
         if entry.startswith("class") and not tri:
             if entry == "class":
@@ -228,6 +234,7 @@ def call_lib(case, n_clusters="case", cutoff="case", tri="case", entry="case"):
             res = kcenters(X, metric, **kw)
     finally:
         LOGGER.removeHandler(cap)
+        PKG.setLevel(old_pkg)
         LOGGER.setLevel(old[0])
         LOGGER.propagate = old[1]
         logging.disable(old[2])
